@@ -15,6 +15,7 @@
 #include <amgcl/relaxation/as_preconditioner.hpp>
 #include <amgcl/preconditioner/dummy.hpp>
 #include <amgcl/preconditioner/cpr.hpp>
+#include <amgcl/preconditioner/cpr_drs.hpp>
 #include <amgcl/preconditioner/schur_pressure_correction.hpp>
 #include <amgcl/solver/preonly.hpp>
 #include <amgcl/solver/skyline_lu.hpp>
@@ -62,6 +63,13 @@ template<class P, class SetP> static void order_case(const std::string &nm, cons
 // adapter::block_matrix describes the same operator: entries and matrix-vector product agree with the scalar source
 #include <amgcl/adapter/block_matrix.hpp>
 #include <amgcl/value_type/static_matrix.hpp>
+// the block adapter's row iterator is copied by adapters that wrap it (reorder stores the wrapped iterator by value): a copy must be a self-contained iterator --
+// same entries, and destroying the copy and the original must not destroy the sub-iterators twice (the row-builder's sub-iterators own std::vectors)
+static void block_iterator_copy_case(const Pattern &p) { hx::run_case("block_adapter_iterator_copy/"+p.name, [&]() { typedef amgcl::static_matrix<scalar,2,2> Blk; SCrs S=hx::symbolic_matrix(p,"a",false); RowBuilder rb{S}; auto mb=amgcl::adapter::make_matrix(rb); auto Bm=amgcl::adapter::block_matrix<Blk>(mb);
+    typedef decltype(amgcl::backend::row_begin(Bm,0)) It; bool same=true; size_t nbr=amgcl::backend::rows(Bm);
+    for (size_t I=0;I<nbr;++I) { std::vector<std::pair<ptrdiff_t,Blk>> a, b; { It it=amgcl::backend::row_begin(Bm,I); It *cp=new It(it); for (; *cp; ++*cp) b.push_back({cp->col(),cp->value()}); delete cp; for (; it; ++it) a.push_back({it.col(),it.value()}); }
+        same=same&&a.size()==b.size(); for (size_t k=0;k<a.size()&&same;++k) { same=same&&a[k].first==b[k].first; for (int r=0;r<2;++r) for (int c=0;c<2;++c) same=same&&hx::same_handle(a[k].second(r,c),b[k].second(r,c)); } }
+    hx::require("a copy of the block adapter's row iterator is a self-contained iterator over the same entries", same); }); }
 template<int B> static void block_adapter_case(const Pattern &p) { hx::run_case("block_adapter/b"+std::to_string(B)+"/"+p.name, [&]() { typedef amgcl::static_matrix<scalar,B,B> Blk; typedef amgcl::static_matrix<scalar,B,1> BV;
     SCrs S=hx::symbolic_matrix(p,"a",false); int n=p.n, nb=n/B; auto Sm=hx::to_amgcl(S); auto ad=amgcl::adapter::block_matrix<Blk>(*Sm); be::crs<Blk,ptrdiff_t,ptrdiff_t> Bm(ad);
     hx::require("block adapter: block rows / cols", Bm.nrows==(size_t)nb && Bm.ncols==(size_t)(p.m/B)); if (Bm.nrows!=(size_t)nb) return;
@@ -72,7 +80,7 @@ template<int B> static void block_adapter_case(const Pattern &p) { hx::run_case(
 
 // amg::rebuild(M) with the rows of M in arbitrary order = rebuild with the sorted matrix
 // cpr::partial_update(K) is the second entry point of cpr that accepts a user matrix: the same matrix with row entries in arbitrary order must give the same preconditioner
-template<class P> static void cpr_update_order_case(const Pattern &p, hx::Rng &rng, bool transfer) { hx::CaseOptions co; co.max_paths=16; hx::run_case(std::string("update_row_order/cpr/")+(transfer?"transfer/":"global_only/")+p.name, [&]() { hx::Rng r2(rng.s); SCrs S=hx::ddmatrix(p,r2); int n=p.n; typename P::params prm; prm.block_size=2;
+template<class P> static void cpr_update_order_case(const Pattern &p, hx::Rng &rng, bool transfer, const std::string &cname="cpr") { hx::CaseOptions co; co.max_paths=16; hx::run_case("update_row_order/"+cname+"/"+(transfer?"transfer/":"global_only/")+p.name, [&]() { hx::Rng r2(rng.s); SCrs S=hx::ddmatrix(p,r2); int n=p.n; typename P::params prm; prm.block_size=2;
     SCrs S2=S; for (int i=0;i<n;++i) for (ptrdiff_t k=S.ptr[i];k<S.ptr[i+1];++k) S2.val[k] = S.col[k]==i ? S.val[k] : S.val[k]*scalar(3)/scalar(4);
     Vec f=hx::sym_vector("f",n); auto act=[&](const SCrs &M, bool &threw) { Vec out; try { P pre(std::tie(n,S.ptr,S.col,S.val),prm); pre.partial_update(std::tie(n,M.ptr,M.col,M.val),transfer); NV F=hx::to_numa(f), X(n,false); for (int i=0;i<n;++i) X[i]=scalar(0); pre.apply(F,X); out=hx::to_vec(X); } catch (const std::runtime_error&) { threw=true; } return out; };
     bool t0=false; Vec ref=act(S2,t0); hx::require("cpr: partial_update with the sorted matrix does not throw", !t0); if (t0) return;
@@ -87,7 +95,7 @@ template<class P, class SetP> static void rebuild_order_case(const std::string &
 int main(int argc, char **argv) {
     hx::parse_args(argc,argv); bool T=hx::thorough(); hx::Rng rng(hx::args().seed);
     hx::encodes("adapter/crs_tuple.hpp (tuple of ranges with index types int/long/unsigned/size_t/ptrdiff_t, iterator ranges), adapter::zero_copy / zero_copy_direct, adapter::make_matrix (crs_builder), adapter::reorder (reordered_matrix, forward/inverse, cuthill_mckee), adapter::scale_diagonal / scaled_problem, crs(const Matrix&)");
-    hx::encodes("amg, relaxation::as_preconditioner, preconditioner::dummy, cpr, schur_pressure_correction constructed from matrices with shuffled rows; amg::rebuild and cpr::partial_update with shuffled rows");
+    hx::encodes("amg, relaxation::as_preconditioner, preconditioner::dummy, cpr, cpr_drs, schur_pressure_correction constructed from matrices with shuffled rows; amg::rebuild and cpr::partial_update with shuffled rows");
     hx::assume_note("adapter cases: all values symbolic, patterns enumerated; exact inner solve by skyline LU for reorder / scaled_problem; scaled_problem assumes a positive diagonal");
     hx::assume_note("NOT covered: Eigen, uBlas and Epetra adapters (Eigen expression templates at a symbolic scalar / packages not installed)");
     std::vector<Pattern> ps; for (uint64_t k=0;k<16;++k) ps.push_back(hx::mask_pattern(2,2,k,false)); for (int k=0;k<(T?60:16);++k) ps.push_back(hx::mask_pattern(3,3,rng.next()%512,false)); ps.push_back(hx::band_pattern(4,1));
@@ -102,8 +110,10 @@ int main(int argc, char **argv) {
     typedef amgcl::make_solver<amgcl::relaxation::as_preconditioner<BE,amgcl::relaxation::ilu0>,amgcl::solver::preonly<BE>> IS; typedef amgcl::preconditioner::schur_pressure_correction<IS,IS> S1;
     for (auto &p : std::vector<Pattern>{hx::grid_pattern(3,2),hx::band_pattern(6,1),hx::grid_pattern(2,2)}) { auto ce=[](auto &prm){ prm.coarse_enough=2; }; order_case<A1>("amg<smoothed_aggregation,spai0>",p,rng,ce,false); order_case<A2>("amg<ruge_stuben,gauss_seidel>",p,rng,ce,false); order_case<A3>("amg<aggregation,ilu0>",p,rng,ce,false);
         order_case<R1>("as_preconditioner<ilu0>",p,rng,[](auto&){},false); order_case<R2>("as_preconditioner<gauss_seidel>",p,rng,[](auto &q){ q.serial=true; },false); order_case<D1>("dummy",p,rng,[](auto&){},false);
-        if (p.n%2==0) { cpr_update_order_case<C1>(p,rng,true); cpr_update_order_case<C1>(p,rng,false); order_case<C1>("cpr",p,rng,[](auto &q){ q.block_size=2; },false); order_case<S1>("schur_pressure_correction",p,rng,[&](auto &q){ q.pmask.assign(p.n,0); for (int i=0;i<p.n;i+=2) q.pmask[i]=1; },false); } }
+        if (p.n%2==0) { typedef amgcl::preconditioner::cpr_drs<amgcl::relaxation::as_preconditioner<BE,amgcl::relaxation::spai0>, amgcl::relaxation::as_preconditioner<BE,amgcl::relaxation::ilu0>> C2; order_case<C2>("cpr_drs",p,rng,[](auto &q){ q.block_size=2; },false); cpr_update_order_case<C2>(p,rng,true,"cpr_drs"); cpr_update_order_case<C2>(p,rng,false,"cpr_drs");
+          cpr_update_order_case<C1>(p,rng,true); cpr_update_order_case<C1>(p,rng,false); order_case<C1>("cpr",p,rng,[](auto &q){ q.block_size=2; },false); order_case<S1>("schur_pressure_correction",p,rng,[&](auto &q){ q.pmask.assign(p.n,0); for (int i=0;i<p.n;i+=2) q.pmask[i]=1; },false); } }
     for (auto &p : std::vector<Pattern>{hx::grid_pattern(3,2),hx::band_pattern(6,1)}) { auto ce=[](auto &prm){ prm.coarse_enough=2; }; rebuild_order_case<A3>("amg<aggregation,ilu0>",p,rng,ce); rebuild_order_case<A1>("amg<smoothed_aggregation,spai0>",p,rng,ce); rebuild_order_case<A2>("amg<ruge_stuben,gauss_seidel>",p,rng,ce); }
+    for (int k=0;k<4;++k) block_iterator_copy_case(hx::random_pattern(4,4,rng,1+k%3,k%2==0));
     for (int k=0;k<(T?40:12);++k) { block_adapter_case<2>(hx::random_pattern(4,4,rng,1+k%3,k%2==0)); if (k%3==0) block_adapter_case<2>(hx::random_pattern(4,6,rng,2,false)); if (k%4==0) block_adapter_case<3>(hx::random_pattern(6,6,rng,2+k%2,true)); }
     for (auto &p : std::vector<Pattern>{hx::band_pattern(3,1),hx::dense_pattern(3,3)}) { order_case<R1>("as_preconditioner<ilu0> (symbolic matrix)",p,rng,[](auto&){},true); order_case<A1>("amg<smoothed_aggregation,spai0> (symbolic matrix)",p,rng,[](auto &prm){ prm.coarse_enough=1; },true); }
     return hx::finish();
